@@ -14,6 +14,7 @@ REL = {'C01': ['C01', 'C20', 'C04'], 'C02': ['C02', 'C17', 'C05'], 'C03': ['C03'
 
 REPO = os.environ.get('TRIAL_REPO', '/repo')       # tree the change is applied to (and undone in)
 VERIF = os.environ.get('TRIAL_VERIF', '/verif')
+EVID = os.environ.get('TRIAL_EVID', '/tmp/seed_trials_evidence')
 
 
 def sh(cmd, **kw):
@@ -35,7 +36,7 @@ def trial(sid, d, pid, checks=None):
         res['demo_rc_changed'] = sh(f'DECIMALFP_FORCE_PYTHON_IMPL=1 PYTHONPATH={REPO}/src /venv/bin/python {d}/demo.py >/dev/null 2>&1; echo $?').stdout.strip()
         res['demo_tail'] = dm.stdout.strip()[-400:]
         for p in (checks or REL[pid]):
-            c = sh(f'cd {VERIF} && VERIF_EVIDENCE_DIR=/tmp/seed_trials_evidence QUANTITY_REPO={REPO} ./check {p} --tier quick 2>&1')
+            c = sh(f'cd {VERIF} && VERIF_EVIDENCE_DIR={EVID} QUANTITY_REPO={REPO} ./check {p} --tier quick 2>&1')
             lines = [l for l in c.stdout.strip().splitlines() if not l.startswith('WARNING')]
             viol = [l for l in lines if l.startswith('VIOLATION')]
             summ = lines[-1] if lines else ''
@@ -68,10 +69,10 @@ def main():
         pid = f'C{n:02d}'
         src = f'/tmp/mutout_{pid}'
         for var, suffix in (('a', ''), ('b', '_B'), ('c', '_C'), ('d', None), ('e', None),
-                            ('f', None), ('g', None)):
+                            ('f', None), ('g', None), ('h', None), ('i', None)):
             sid = f'{pid}-{var}'
             if suffix is None:          # later rounds: one directory per change
-                src, suffix = f"/tmp/mutout{'2' if var in 'de' else '3'}_{sid}", ''
+                src, suffix = f"/tmp/mutout{'2' if var in 'de' else '3' if var in 'fg' else '4'}_{sid}", ''
             else:
                 src = f'/tmp/mutout_{pid}'
             pf = f'{src}/patch{suffix}.diff'
